@@ -426,10 +426,17 @@ def _build_args(call):
         _ntv2_fixture()
         path = _NTV2[0 if a["file"] == "A" else 1]
 
+        pform = a.get("pform", "abs")
+
         def f(which, la, lo, method):
-            g = GRIDS.get(which)
+            g = GRIDS.get(which + pform)
             if g is None:
-                g = GRIDS[which] = nt.read_ntv2_file(path)
+                # the file named as callers name it: absolute string, relative to the working directory, or a pathlib.Path
+                import os
+                import pathlib
+                named = {"abs": path, "rel": os.path.relpath(path), "Path": pathlib.Path(path)}[pform]
+                g = GRIDS[which + pform] = nt.read_ntv2_file(named)
+                GRID_CANON[which + pform] = canon(g)        # what the reader handed to the caller
             meta = sorted((n, sg.s_lat, sg.n_lat, sg.e_long, sg.w_long, sg.lat_inc, sg.long_inc, sg.gs_count) for n, sg in g.subgrids.items())
             return (nt.interpolate_ntv2(g, la, lo, method), meta)
         return f, [a["file"], a["lat"], a["lon"], a["method"]]
@@ -445,6 +452,7 @@ def _build_args(call):
 
 
 _NTV2 = []
+GRID_CANON = {}     # their canonical forms as read_ntv2_file returned them
 GRIDS = {}          # grid objects the "caller" keeps between calls of one history (cleared by the executor per history)
 
 
@@ -658,7 +666,7 @@ def call_strategy(families=False, raw_pool=False):
         _fd("ntv2_obj", file=st.sampled_from(["A", "B"]), lat=S.floats(-34.9, -33.1), lon=S.floats(147.1, 148.9),
             method=st.sampled_from(["bilinear", "bicubic"])),
         _fd("ntv2_obj", file=st.sampled_from(["A", "B", "B"]), lat=S.floats(-34.9, -33.1), lon=S.floats(147.1, 148.9),
-            method=st.sampled_from(["bilinear", "bicubic"])),
+            method=st.sampled_from(["bilinear", "bicubic"]), pform=st.sampled_from(["abs", "rel", "Path"])),
         _fd("conform7", trans=shipped_sd, neg=st.booleans(), X=_X.map(lambda p: [int(round(v)) for v in p]), vcv=st.none()),
         _fd("llh2xyz", lat=st.integers(-90, 90), lon=st.integers(-180, 180), h=st.integers(-100, 9000), ell=_ell, kind=st.just("float")),
         _fd("angle_rounded", cls=st.sampled_from(["dms", "ddm"]), d=st.integers(0, 80), m=st.sampled_from([0, 29, 58, 59]), pos=st.booleans(),
